@@ -287,9 +287,9 @@ class Schedule(Strategy):
                 # get connected charging station, GC
                 cs = self.world_state.charging_stations[cs_id]
                 gc = self.world_state.grid_connectors[cs.parent]
-                # find optimal power for charging
+                # find optimal power for charging, don't exceed GC limit
                 power = self.sim_balanced_charging(
-                    vehicle, dt, vehicle.vehicle_type.charging_curve.max_power,
+                    vehicle, dt, gc.cur_max_power - gc.get_current_load(),
                     delta_soc=delta_soc)["opt_power"]
                 # load with power
                 avg_power, charged_soc = vehicle.battery.load(
